@@ -54,6 +54,14 @@ pub enum Variant {
     FundedByEarlierTx,
     /// the recipient sends the value straight back: a surviving debit, but no net loss
     Refunded,
+    /// the delegated account is reached through an ordinary contract (sponsor -> relay -> A) and
+    /// the inner frames survive: the top-level target carries no designator
+    Nested,
+    /// two debits in one execution: the amount to the sink first, then a little to a contract that
+    /// sends it straight back (the protected balance is the one before the *first* debit)
+    DustAfter,
+    /// the same two debits in the other order
+    DustBefore,
 }
 
 #[derive(Clone, Copy, Debug, PartialEq, Eq)]
@@ -112,12 +120,16 @@ pub fn block_ext(debit: Debit, variant: Variant, bal: Bal, k: usize, spec: SpecI
     db.deploy(contract(ENDOWER), kit::endower());
     db.deploy(contract(BOMB), kit::bomb());
     db.deploy(contract(44), kit::relay(a(), kit::CallKind::Call, true, false));
+    db.deploy(contract(46), kit::relay(a(), kit::CallKind::Call, false, false));
+    db.deploy(contract(47), kit::spender2());
     // echo: returns the received value to its caller
     db.deploy(
         contract(45),
         Asm::new().push(0).push(0).push(0).push(0).op(op::CALLVALUE).op(op::CALLER).op(op::GAS).op(op::CALL).op(op::POP).op(op::STOP).build(),
     );
+    let two = matches!(variant, Variant::DustAfter | Variant::DustBefore);
     let target = match debit {
+        Debit::CallValue if two => contract(47),
         Debit::CallValue | Debit::None | Debit::OwnTopLevelValue => contract(SPENDER),
         Debit::CreateEndowment => contract(ENDOWER),
         Debit::SelfDestruct => contract(BOMB),
@@ -136,6 +148,12 @@ pub fn block_ext(debit: Debit, variant: Variant, bal: Bal, k: usize, spec: SpecI
     }
     let amount = if debit == Debit::None { 0 } else { v };
     let data = match debit {
+        Debit::CallValue if variant == Variant::DustAfter => {
+            calldata(&[word_addr(sink()), word(amount as u64), word_addr(contract(45)), word(3)])
+        }
+        Debit::CallValue if variant == Variant::DustBefore => {
+            calldata(&[word_addr(contract(45)), word(3), word_addr(sink()), word(amount as u64)])
+        }
         Debit::CallValue | Debit::None => {
             let to = if variant == Variant::Refunded { contract(45) } else { sink() };
             calldata(&[word_addr(to), word(amount as u64)])
@@ -160,13 +178,22 @@ pub fn block_ext(debit: Debit, variant: Variant, bal: Bal, k: usize, spec: SpecI
             a_nonce += 1;
         }
         _ => {
-            let to = if variant == Variant::InnerRevert { contract(44) } else { a() };
+            let to = match variant {
+                Variant::InnerRevert => contract(44),
+                Variant::Nested => contract(46),
+                _ => a(),
+            };
             let mut t = tx(eoa(0), 0, Some(to), credit, data);
             if auth_in_tx {
                 t = with_auths(t, vec![authorization(a(), a_nonce, target)]);
                 a_nonce += 1;
             }
-            txs.push((format!("e0>{}({debit:?},{variant:?})", if variant == Variant::InnerRevert { "relay+revert(A)" } else { "A" }), t));
+            let via = match variant {
+                Variant::InnerRevert => "relay+revert(A)",
+                Variant::Nested => "relay(A)",
+                _ => "A",
+            };
+            txs.push((format!("e0>{via}({debit:?},{variant:?})"), t));
         }
     }
     let mut later = Vec::new();
@@ -299,14 +326,27 @@ pub fn reserve_job(b: &Block, policy: bool, run0: &RunCfg, gran: Granularity, bo
 pub fn blocks(spec: SpecId) -> Vec<Block> {
     let mut v = Vec::new();
     for debit in [Debit::CallValue, Debit::CreateEndowment, Debit::SelfDestruct, Debit::None, Debit::OwnTopLevelValue] {
-        for variant in [Variant::Plain, Variant::InnerRevert, Variant::CreditBefore, Variant::AuthInDebitTx, Variant::FundedByEarlierTx, Variant::Refunded] {
-            if variant == Variant::Refunded && debit != Debit::CallValue {
+        for variant in [
+            Variant::Plain,
+            Variant::InnerRevert,
+            Variant::CreditBefore,
+            Variant::AuthInDebitTx,
+            Variant::FundedByEarlierTx,
+            Variant::Refunded,
+            Variant::Nested,
+            Variant::DustAfter,
+            Variant::DustBefore,
+        ] {
+            if matches!(variant, Variant::Refunded | Variant::DustAfter | Variant::DustBefore) && debit != Debit::CallValue {
                 continue;
             }
             if debit == Debit::OwnTopLevelValue && variant != Variant::Plain {
                 continue;
             }
             if debit == Debit::SelfDestruct && variant == Variant::InnerRevert {
+                continue;
+            }
+            if variant == Variant::Nested && matches!(debit, Debit::None) {
                 continue;
             }
             // the funding transfer itself runs the delegated code (with empty calldata): only the
